@@ -427,7 +427,8 @@ class Request(SimpleRequest):
 
         if app.auto_data and \
                 0 <= self.__content_length <= app.data_size:
-            self.__file = BytesIO(self.__file.read(self.__content_length))
+            self.__file = BytesIO(fieldstorage.read_length(
+                self.__file.read, self.__content_length))
             self.__file.seek(0)
 
         self.__cached_size = app.cached_size
@@ -731,12 +732,13 @@ class Request(SimpleRequest):
         if self.__content_length < 0:   # HTTP/0.9 without Content-Length
             return self.__file.read(length)
         if isinstance(self.input, CachedInput):  # it knows rest of the body
-            return self.input.read(
+            return fieldstorage.read_length(
+                self.input.read,
                 self.__content_length if length < 0 else length)
         todo = self.__content_length - self.__read_length
         if length < 0 or length > todo:
             length = todo
-        data = self.__file.read(length)
+        data = fieldstorage.read_length(self.__file.read, length)
         self.__read_length += len(data)
         return data
 
